@@ -113,6 +113,15 @@ In-place mutation, nested loops, decision trees (option `mut=True`, third pass; 
     draw of a cached sub-sampler) is a parameter; `type_alias` for associated types (`Self::Output`).
   * a `let mut m = <value of a struct type listed in struct_mk>` is exploded into its fields (`m.data[i] = e` updates the field
     `data`), the value `m` is rebuilt with the constructor `struct_mk[type]`; the return type `Self` is the impl's type.
+  Normal form (option `normalize`, default on with `mut`): harmless tidying of the source gives the SAME Lean text —
+  * an immutable `let` of a pure integer expression (no calls, no panic source, no `let mut` variable mentioned) or of a slice
+    `&v[a..b]` is not emitted: the name stands for its initializer (a use after one of the mentioned names was bound again is
+    refused); `row[k]` / `&row[p..q]` of such a slice `row = &v[a..b]` is index arithmetic on the base: `v[a + k]`,
+    `&v[a + p .. a + q]` (`&row[p..]` ends at `b`);
+  * `usize` sums are left-associated (`a + (b + c)` is `(a + b) + c`);
+  * `for pat in it { v.push(e); }` is `v ++ it.map(|pat| e)` (what `.map(..).collect()` gives), `for pat in it { v.extend(w); }` and
+    a loop whose body is one such loop are `v ++ it.flat_map(..)`; nothing is appended to a literally empty vector.
+  Floating-point expression trees are never touched: no re-association, no commutation, no `x / 2.` ↔ `0.5 * x`.
   Still outside: `while` / `loop`, `break` / `continue`, `return` of anything but `None` inside a loop, checked `usize`
   subtraction / division inside a loop body or a branch, `match` with bindings or guards, `if let` on other patterns,
   `&mut self` / `&mut` arguments, iterator adaptors not listed above.
@@ -1110,6 +1119,9 @@ class Opts:
         self.adt_ctors = {}           # "Broadcast::Vstack" -> Lean constructor term (applied to the translated arguments)
         self.struct_types = {}        # struct type of a parameter -> [(field, type)]: binders `<param>_<field>`
         self.struct_methods = {}      # method on such a parameter -> list of fields: `m.shape()` = the tuple of these fields
+        self.normalize = True         # (option `mut`) normal form that absorbs harmless tidying: immutable `let`s of pure integer
+                                      # expressions and of slices are inlined (a slice of a slice is index arithmetic on the base),
+                                      # `usize` sums are left-associated, a loop that only pushes / extends is `++ map` / `++ flatMap`
         self.type_alias = {}          # Rust type text -> Rust type text, e.g. {"Self::Output": "f64"} (associated types)
         self.field_calls = {}         # `self.<field>.<method>()` -> (lean term, type): e.g. {"rng.sample": ("u", "f64")} (an RNG
                                       # draw of a cached sub-sampler as a parameter); also "Type::ctor.method" for `T::f(..).m()`
@@ -1750,7 +1762,7 @@ class Translator:
                 handler = lambda: self.index_assign_lines(s, env, d)
             elif s.kind == "exprstmt" and s.e.kind == "method" and s.e.name == "swap":
                 handler = lambda: self.swap_lines(s.e, env, d)
-            elif s.kind == "exprstmt" and s.e.kind == "method" and s.e.name == "extend_from_slice":
+            elif s.kind == "exprstmt" and s.e.kind == "method" and s.e.name in ("extend_from_slice", "extend"):
                 handler = lambda: self.extend_lines(s.e, env, d)
             elif s.kind == "unsafe":
                 handler = lambda: self.unsafe_lines(s, env, d)
@@ -1830,7 +1842,9 @@ class Translator:
                 if loops:
                     self._declare(name, env, muts[k])
             return out
+        npre = len(self.pre_stack[-1]) if self.pre_stack else 0
         v, ty = self.expr(s.e, env)
+        pure_init = (len(self.pre_stack[-1]) if self.pre_stack else 0) == npre
         if loops:
             ty = deflt(ty) if is_tup(ty) else ty
             if ty == ("list", None) and self.o.mut and s.ty is not None and self.ty2(s.ty) not in (None, V) \
@@ -1851,6 +1865,8 @@ class Translator:
             if want is None or (want != ty and not (ty == INTLIT and want in (I, U)) and not (loops and compat(ty, want))):
                 raise Unsupported("let %s: %s := <%s>" % (s.pat, s.ty, ty))
             ty = want
+        if loops and pure_init and self._inline_let(s, env, ty):
+            return ""
         ln = self.lname(s.pat)
         env[s.pat] = (ln, ty)
         if loops:
@@ -1864,9 +1880,14 @@ class Translator:
     # ---- mutation and loops (option `loops`)
     MUT = "\0mut:"        # env keys: is the Rust variable `mut`;  LO: known lower bound (Lean text) of a usize variable
     LO = "\0lo:"
+    GEN = "\0gen:"        # binding generation of a Rust name (bumped whenever the name is bound again)
+    INL = "\0inl:"        # an inlined immutable `let`: (initializer AST, {mentioned name: generation at the `let`})
     CAP = "\0cap:"        # capacity (Lean text) of a `let mut x = Vec::with_capacity(n)` (option `mut`: checked by `set_len`)
 
     def _declare(self, name, env, mut):
+        self.gen_n = getattr(self, "gen_n", 0) + 1
+        env[self.GEN + name] = self.gen_n
+        env.pop(self.INL + name, None)
         env.pop(self.LO + name, None)
         env[self.MUT + name] = bool(mut)
         if mut:
@@ -1980,7 +2001,7 @@ class Translator:
                 acc.append(s.target.e.name)
             elif s.kind == "assign" and s.target.kind == "index" and s.target.e.kind == "field" and s.target.e.e.kind == "var":
                 acc.append("%s.%s" % (s.target.e.e.name, s.target.e.name))
-            elif s.kind == "exprstmt" and s.e.kind == "method" and s.e.name in ("swap", "extend_from_slice") \
+            elif s.kind == "exprstmt" and s.e.kind == "method" and s.e.name in ("swap", "extend_from_slice", "extend") \
                     and s.e.recv.kind == "var":
                 acc.append(s.e.recv.name)
             elif s.kind == "exprstmt" and s.e.kind == "if":
@@ -1993,6 +2014,85 @@ class Translator:
             self._assigned(e.els, acc)
 
     # ---- third pass (option `mut`): in-place mutation of `let mut` vectors, `if` statements that only mutate
+    def _ast_vars(self, node, acc):
+        if isinstance(node, list):
+            for x in node:
+                self._ast_vars(x, acc)
+        elif isinstance(node, tuple):
+            for x in node:
+                self._ast_vars(x, acc)
+        elif isinstance(node, N):
+            if node.kind == "var":
+                acc.add(node.name)
+            for k_, v_ in node.__dict__.items():
+                if k_ != "parsed" and isinstance(v_, (N, list, tuple)):
+                    self._ast_vars(v_, acc)
+        return acc
+
+    def _strip(self, e):
+        while e.kind == "paren" or (e.kind == "un" and e.op == "&"):
+            e = e.e
+        return e
+
+    def _is_view(self, e):
+        """`&base[lo..hi]` (a slice of a variable / of another slice)"""
+        e = self._strip(e)
+        return e.kind == "index" and e.idx.kind == "range" and not e.idx.incl and self._strip(e.e).kind == "var"
+
+    def _inline_let(self, s, env, ty):
+        """(normal form) an immutable `let x = e;` of a pure integer expression or of a slice `&v[a..b]` that mentions no
+        `let mut` variable is not emitted: `x` stands for `e` (re-translated at each use; a use after one of the names in `e`
+        was bound again is refused)."""
+        if not (self.o.mut and self.o.normalize) or s.mut or not isinstance(s.pat, str) or s.pat == "_":
+            return False
+        if not (ty in (U, I) or (self._is_view(s.e) and is_list(ty))):
+            return False
+        names = self._ast_vars(s.e, set())
+        if any(env.get(self.MUT + x) for x in names) or s.pat in names:
+            return False
+        if self._has_closure(s.e):
+            return False
+        self._declare(s.pat, env, False)
+        env[s.pat] = ("\0inlined", ty)
+        env[self.INL + s.pat] = (s.e, {x: env.get(self.GEN + x) for x in names})
+        return True
+
+    def _has_closure(self, node):
+        if isinstance(node, (list, tuple)):
+            return any(self._has_closure(x) for x in node)
+        if not isinstance(node, N):
+            return False
+        if node.kind in ("closure", "call", "method", "macro", "if", "block", "match"):
+            return node.kind != "method" or node.name not in ("len",) or self._has_closure(node.recv)
+        return any(self._has_closure(v) for k_, v in node.__dict__.items() if k_ != "parsed" and isinstance(v, (N, list, tuple)))
+
+    def _inlined(self, name, env):
+        """the AST an inlined `let` stands for (checked: none of the names it mentions was bound again since)"""
+        ast, snap = env[self.INL + name]
+        for x, g in snap.items():
+            if env.get(self.GEN + x) != g:
+                raise Unsupported("`%s` (an inlined `let`) is used after `%s` was bound again" % (name, x))
+        return ast
+
+    def _view_compose(self, e, env):
+        """`row[k]` / `&row[p..q]` where `row` is an inlined slice `&base[lo..hi]`: index arithmetic on the base
+        (`base[lo + k]`, `&base[lo + p .. lo + q]`); None if `e.e` is not such a variable"""
+        b = self._strip(e.e)
+        if not (self.o.mut and self.o.normalize and b.kind == "var" and (self.INL + b.name) in env):
+            return None
+        v = self._strip(self._inlined(b.name, env))
+        if not (v.kind == "index" and v.idx.kind == "range"):
+            return None
+        lo, hi = v.idx.lo, v.idx.hi
+        add = lambda a, x: x if a is None else (a if x is None else N("bin", op="+", l=a, r=x))
+        if e.idx.kind == "range":
+            if e.idx.incl:
+                return None
+            nlo = add(lo, e.idx.lo)
+            nhi = add(lo, e.idx.hi) if e.idx.hi is not None else hi
+            return N("index", e=v.e, idx=N("range", lo=nlo, hi=nhi, incl=False), rng=e.rng)
+        return N("index", e=v.e, idx=add(lo, e.idx), rng=e.rng)
+
     def _mut_list(self, name, env, what):
         if name not in env or not env.get(self.MUT + name):
             raise Unsupported("%s `%s`, which is not a `let mut` variable in scope" % (what, name))
@@ -2052,14 +2152,99 @@ class Translator:
         if e.recv.kind != "var" or len(e.args) != 1:
             raise Unsupported("`extend_from_slice` shape")
         name = e.recv.name
+        if env.get(name, (None, None))[1] == ("list", None) and env.get(self.MUT + name):
+            env[name] = ("([] : List α)", V)          # a fresh `Vec::with_capacity(..)`: assumed `Vec<f64>` (checked below)
         lty = self._mut_list(name, env, "`extend_from_slice` on")
         w, tw = self.expr(e.args[0], env)
         if not is_list(tw) or not compat(elem_ty(tw), elem_ty(lty)):
             raise Unsupported("`extend_from_slice` of a %s onto %s" % (tw, lty))
         ln = self.lname(name)
-        out = "%slet %s : %s := (%s ++ %s)\n" % (self.ind(d), ln, lean_ty(lty), self.atom(env[name][0]), self.atom(w))
+        out = "%slet %s : %s := %s\n" % (self.ind(d), ln, lean_ty(lty), self._append(env[name][0], w))
         env[name] = (ln, lty)
         return out
+
+    def _append(self, cur, w):
+        """`cur ++ w` (normal form: nothing is appended to a literally empty list)"""
+        if self.o.normalize and re.fullmatch(r"\[\]|\(\[\] : [^()]*\)", cur.strip()):
+            return self.atom(w)
+        return "(%s ++ %s)" % (self.atom(cur), self.atom(w))
+
+    def push_loop_lines(self, s, env, d):
+        """(normal form) `for pat in it { v.push(e); }` is `v ++ it.map(|pat| e)`, `for pat in it { v.extend(w); }` is
+        `v ++ it.flat_map(|pat| w)`, and a loop whose body is one such loop is the `flat_map` of the inner list (`e`, `w` do not
+        mention `v`; `v` is the only variable the loop assigns); None otherwise"""
+        if not (self.o.mut and self.o.normalize):
+            return None
+        r = self._push_loop_value(s, env, None)
+        if r is None:
+            return None
+        name, new, lty = r
+        ln = self.lname(name)
+        out = "%slet %s : %s := %s\n" % (self.ind(d), ln, lean_ty(lty), self._append(env[name][0], new))
+        env[name] = (ln, lty)
+        return out
+
+    def _push_loop_value(self, s, env, target):
+        """-> (vector name, Lean text of the list the loop appends to it, type of the vector) or None"""
+        pat, it, body = self._parse_for(s)
+        sts = self._stmt_block(body)
+        if len(sts) != 1:
+            return None
+        st = sts[0]
+        inner_loop = st.kind == "loop"
+        if inner_loop:
+            call = None
+        elif st.kind == "exprstmt" and st.e.kind == "method" and st.e.recv.kind == "var" \
+                and st.e.name in ("push", "extend", "extend_from_slice") and len(st.e.args) == 1:
+            call = st.e
+            name = call.recv.name
+            if name in self._ast_vars(call.args[0], set()) or self._can_panic(call.args[0]):
+                return None
+        else:
+            return None
+        if self._can_panic(it):
+            return None
+        saved_fresh = self.fresh_n
+        itv, itty = self.expr(it, env)
+        if not is_list(itty):
+            raise Unsupported("`for` over a value of type %s" % (itty,))
+        benv = dict(env)
+        pn, pty = self.bind_pattern(pat, elem_ty(itty), benv)
+        if isinstance(pat, str) and isinstance(itty, tuple) and itty[0] == "range":
+            benv[self.LO + pat] = itty[1]
+        self.in_closure += 1
+        try:
+            if inner_loop:
+                r = self._push_loop_value(st, benv, target)
+                if r is None:
+                    self.fresh_n = saved_fresh
+                    return None
+                name, v, lty = r
+                ty = lty
+                kind = "extend"
+            else:
+                v, ty = self.expr(call.args[0], benv)
+                kind = "push" if call.name == "push" else "extend"
+        finally:
+            self.in_closure -= 1
+        if name not in env or not env.get(self.MUT + name) or not is_list(env[name][1]) or name in self._ast_vars(it, set()) \
+                or (target is not None and target != name):
+            self.fresh_n = saved_fresh
+            return None
+        lty = env[name][1]
+        if kind == "push":
+            if lty == ("list", None):
+                lty = mk_list(deflt(ty))
+            if not compat(ty, elem_ty(lty)):
+                raise Unsupported("push of a %s onto %s" % (ty, lty))
+            new = "(List.map (fun (%s : %s) => %s) %s)" % (pn, lean_ty(pty), v, self.atom(itv))
+        else:
+            if lty == ("list", None) and is_list(ty) and ty != ("list", None):
+                lty = norm_list(ty)
+            if not is_list(ty) or ty == ("list", None) or not compat(elem_ty(ty), elem_ty(lty)):
+                raise Unsupported("extend of a %s onto %s" % (ty, lty))
+            new = "(List.flatMap (fun (%s : %s) => %s) %s)" % (pn, lean_ty(pty), v, self.atom(itv))
+        return name, new, lty
 
     def unsafe_lines(self, s, env, d):
         """`unsafe { x.set_len(n); }` right after `let mut x = Vec::with_capacity(n);`: a vector of `n` uninitialised f64
@@ -2153,6 +2338,9 @@ class Translator:
         """`for pat in iter { body }` whose body only re-assigns `let mut` variables of the enclosing scope:
         `List.foldl (fun state item => body; new state) (current state) iter`, state = the assigned variables in
         declaration order (a single variable: itself; several: a tuple)."""
+        nf = self.push_loop_lines(s, env, d)
+        if nf is not None:
+            return nf
         pat, it, body = self._parse_for(s)
         assigned = self._assigned(body, [])
         M = [x for x in self.decl_order if x in assigned and x in env and env.get(self.MUT + x)]
@@ -2458,6 +2646,8 @@ class Translator:
             if suf in INT_SUFFIXES:
                 return "(%d : %s)" % (q, "Int" if suf.startswith("i") else "Nat"), I if suf.startswith("i") else U
             return str(int(q)), INTLIT
+        if k == "var" and o.mut and (self.INL + e.name) in env:
+            return self.expr(self._inlined(e.name, env), env)
         if k == "var":
             if o.mut and e.name in env and isinstance(env[e.name][1], tuple) and env[e.name][1][0] == "adt" \
                     and env[e.name][1][1] in o.struct_mk and (self.MUT + e.name + "." + o.struct_types[env[e.name][1][1]][0][0]) in env:
@@ -2669,6 +2859,20 @@ class Translator:
         if op in ("&&", "||"):
             a, b = self.cond(e.l, env), self.cond(e.r, env)
             return "%s %s %s" % (self.atom(a), "∧" if op == "&&" else "∨", self.atom(b)), B
+        if op == "+" and o.mut and o.normalize:
+            rr = e.r
+            while rr.kind == "paren":
+                rr = rr.e
+            if rr.kind == "bin" and rr.op == "+":
+                # (normal form) `a + (b + c)` of usize is `(a + b) + c`; f64 sums are NEVER re-associated
+                saved_fresh = self.fresh_n
+                try:
+                    (tl0, tr0), _ = self.collect(lambda: (self.expr(e.l, env)[1], self.expr(rr, env)[1]))
+                except Unsupported:
+                    tl0 = tr0 = None
+                self.fresh_n = saved_fresh
+                if tl0 in (U, INTLIT) and tr0 in (U, INTLIT):
+                    return self.binop(N("bin", op="+", l=N("bin", op="+", l=e.l, r=rr.l), r=rr.r), env)
         l, tl = self.expr(e.l, env)
         r, tr = self.expr(e.r, env)
         if op in ("&", "|") and tl == B and tr == B:
@@ -2831,7 +3035,7 @@ class Translator:
             return "(some %s)" % self.atom(v), ("opt", deflt(ty))
         if o.mut and key in o.adt_ctors:
             return self.adt_value(key, e.args, env)
-        if o.loops and key in ("Vec::new", "Vec::with_capacity"):
+        if o.loops and (key in ("Vec::new", "Vec::with_capacity") or (o.mut and key in ("Vector::with_capacity",))):
             for a in e.args:
                 self.expr(a, env)
             return "[]", ("list", None)                    # element type: fixed by the first `push`
@@ -2902,6 +3106,10 @@ class Translator:
             lo, hi = self.atom(lo), self.atom(hi)
             # `lo..hi` of usize: empty when hi ≤ lo (Lean's truncated `hi - lo` is the length)
             return ("(List.range %s)" % hi if lo == "0" else "(List.range' %s (%s - %s))" % (lo, hi, lo)), ("range", lo)
+        if k == "index":
+            composed = self._view_compose(e, env)
+            if composed is not None:
+                return self.expr(composed, env)
         if k == "index" and e.idx.kind == "range" and self.o.mut:
             # a slice `v[lo..hi]` / `v[..hi]` / `v[lo..]`: `take (hi - lo) (drop lo v)` (the panics of slicing — `hi < lo`,
             # `hi > len` — are NOT modelled, as for element reads)
@@ -3499,6 +3707,17 @@ fn n_rot(angle: f64, axis: Ax) -> Vec<f64> { let d = match axis { Ax::X => [1., 
 fn n_toep(x: &[f64]) -> Vec<f64> { let n = x.len(); let mut v = vec![0.; n]; for i in 0..n as i32 { v[i as usize] = x[(i - 1).abs() as usize]; } v }
 fn n_ar(a: f64, b: f64) -> Vec<f64> { let n = (b - a).ceil(); (0..n as usize).map(|i| a + i as f64).collect::<Vec<f64>>() }
 impl Mx { fn eye(d: usize) -> Self { let mut m = Self::zeros(d, d); for i in 0..d { m.data[i * d + i] = 1.; } m } }
+fn q_row(l: &[f64], b: &[f64], n: usize) -> Vec<f64> { let mut x = vec![0.; n]; for i in 0..n { let start = i * n; let row = &l[start..(start + n)];
+    x[i] = (b[i] - dot(&row[..i], &x[..i])) / row[i]; } x }
+fn q_flat(l: &[f64], b: &[f64], n: usize) -> Vec<f64> { let mut x = vec![0.; n]; for i in 0..n {
+    x[i] = (b[i] - dot(&l[(i * n)..(i * n + i)], &x[..i])) / l[i * n + i]; } x }
+fn q_push(a: f64, n: usize) -> Vec<f64> { let mut v = Vec::with_capacity(n); for i in 0..n { v.push(a + i as f64); } v }
+fn q_coll(a: f64, n: usize) -> Vec<f64> { (0..n).map(|i| a + i as f64).collect() }
+fn q_nest(x: &[f64], n: usize) -> Vec<f64> { let mut v = Vec::with_capacity(n); for a in x { for i in 0..n { v.push(a.powi(i as i32)); } } v }
+fn q_ext(x: &[f64], n: usize) -> Vec<f64> { let mut v = Vec::with_capacity(n); for a in x { v.extend((0..n).map(|i| a.powi(i as i32))); } v }
+fn q_assoc(x: &[f64], i: usize, j: usize, a: f64, b: f64, c: f64) -> f64 { x[i + (j + 1)] + (a + (b + c)) }
+fn q_stale(x: &[f64], n: usize) -> f64 { let k = n + 1; let n = k * 2; x[k + n] }
+fn q_mutdep(x: &[f64]) -> f64 { let mut p: usize = 0; let k = p + 1; p += 2; x[k + p] }
 pub struct Ex { lambda: f64, rng: Un }
 impl Ex { pub fn new(lambda: f64) -> Self { if lambda <= 0. { panic!("no"); } Ex { lambda, rng: Un::new(0., 1.), } }
     fn sample(&self) -> f64 { -self.rng.sample().ln() / self.lambda } }
@@ -3627,9 +3846,9 @@ def _selftest():
           "let x : List α := List.foldl (fun (x : List α) (i : Nat) => let x : List α := (List.set x i (((R b i) - (D (List.take (((i * n) + i) - (i * n)) "
           "(List.drop (i * n) l)) (List.take i x))) / (R l ((i * n) + i)))) x) x (List.range n) some x else none",
           fns={"sq": "SQ {0}.length", "dot": "D"}, fn_ret={"sq": "nat"}, opt_fns=("sq",), uninit="(List.map junk (List.range {0}))", **M)
-    check("m_rev", "let n : Nat := u.length let x : List α := (List.replicate n 0) let x : List α := List.foldl (fun (x : List α) (k : Nat) => "
+    check("m_rev", "let x : List α := (List.replicate u.length 0) let x : List α := List.foldl (fun (x : List α) (k : Nat) => "
           "let x : List α := (List.set x k ((R x k) / (R u k))) let x : List α := List.foldl (fun (x : List α) (i : Nat) => "
-          "let x : List α := (List.set x i ((R x i) - ((R x k) * (R u i)))) x) x (List.range k) x) x (List.reverse (List.range n)) x", **M)
+          "let x : List α := (List.set x i ((R x i) - ((R x k) * (R u i)))) x) x (List.range k) x) x (List.reverse (List.range u.length)) x", **M)
     # two vectors in the loop state (declaration order), `if` statements that only mutate, `swap`, `Vec<i32>`
     check("m_piv", "let lu : List α := a let piv : List Int := (List.map (fun (x : Nat) => ((x : Nat) : Int)) (List.range n)) "
           "let st1 : (List α) × (List Int) := List.foldl (fun (st1 : (List α) × (List Int)) (j : Nat) => let p : Nat := j "
@@ -3679,8 +3898,8 @@ def _selftest():
     refuse("m_fwd", "`unsafe` inside a function body", **L)
     refuse("m_tree", "unexpected token '['", **L)
     # ---- fourth pass
-    check("n_cfg", "let n : Nat := a.length let x : List α := a let x : List α := List.foldl (fun (x : List α) (i : Nat) => "
-          "let x : List α := (List.set x i 0) x) x (List.range n) x", cfg_features=(), **M)
+    check("n_cfg", "let x : List α := a let x : List α := List.foldl (fun (x : List α) (i : Nat) => "
+          "let x : List α := (List.set x i 0) x) x (List.range a.length) x", cfg_features=(), **M)
     refuse("n_cfg", "option cfg_features", **M)
     refuse("n_cfg", "found", cfg_features=("fast",), **M)       # the other configuration is outside the subset
     # short-circuit `&&` of panicking predicates, `if` with a panicking branch, `if let`
@@ -3699,9 +3918,9 @@ def _selftest():
           "(List.range ((n / bs) + 1)) c) c (List.range ((n / bs) + 1)) some c else none", **M)
     check("n_rot", "let d : List α := (match axis with | A.x => [1, (Cv.Transc.cos angle)] | A.y => [(Cv.Transc.sin angle), (-1)]) d",
           adts={"Ax": "A"}, adt_ctors={"Ax::X": "A.x", "Ax::Y": "A.y"}, **M)
-    check("n_toep", "let n : Nat := x.length let v : List α := (List.replicate n 0) let v : List α := List.foldl (fun (v : List α) (i : Int) => "
+    check("n_toep", "let v : List α := (List.replicate x.length 0) let v : List α := List.foldl (fun (v : List α) (i : Int) => "
           "let v : List α := (List.set v (Int.toNat i) (R x (Int.natAbs (i - 1)))) v) v "
-          "(List.map (fun (k : Nat) => ((k : Nat) : Int)) (List.range (Int.toNat ((n : Nat) : Int)))) v", **M)
+          "(List.map (fun (k : Nat) => ((k : Nat) : Int)) (List.range (Int.toNat ((x.length : Nat) : Int)))) v", **M)
     check("n_ar", "let n : α := (Cv.Transc.ceil (b - a)) (List.map (fun (i : Nat) => (a + ((i : Nat) : α))) (List.range (TU n)))",
           f64_to_usize="TU {0}", **M)
     refuse("n_ar", "cast of f64 to usize", **M)
@@ -3709,6 +3928,24 @@ def _selftest():
           "let m_data : List α := (List.set m_data ((i * d) + i) 1) m_data) m.data (List.range d) some (MK m_data m.nrows m.ncols)",
           adts={"Mx": "MX"}, struct_types={"Mx": [("data", "vec"), ("nrows", "nat"), ("ncols", "nat")]}, struct_mk={"Mx": "MK"},
           fns={"Self::zeros": "Z"}, fn_ret={"Self::zeros": ("adt", "Mx", "MX")}, opt_fns=("Self::zeros",), **M)
+    # ---- normal form (robustness against harmless tidying): a hoisted offset and a row slice give the SAME text as flat indices
+    NF = dict(fns={"dot": "D"}, **M)
+    assert body(translate(S, "q_row", Opts(**NF))) == body(translate(S, "q_flat", Opts(**NF))), "slice view"
+    assert "List.take (((i * n) + i) - (i * n)) (List.drop (i * n) l)" in body(translate(S, "q_row", Opts(**NF)))
+    ok[0] += 2
+    # a loop that only pushes is the `map` a `collect` gives; nested pushes / `extend` of a mapped range are one `flatMap`
+    check("q_push", "let v : List α := (List.map (fun (i : Nat) => (a + ((i : Nat) : α))) (List.range n)) v", **M)
+    check("q_coll", "(List.map (fun (i : Nat) => (a + ((i : Nat) : α))) (List.range n))", **M)
+    assert body(translate(S, "q_nest", Opts(**M))) == body(translate(S, "q_ext", Opts(**M))), "push loop / extend"
+    check("q_ext", "let v : List α := (List.flatMap (fun (a : α) => (List.map (fun (i : Nat) => (Cv.powi a ((i : Nat) : Int))) (List.range n))) x) v", **M)
+    ok[0] += 1
+    # usize sums are left-associated, f64 sums are NEVER re-associated
+    check("q_assoc", "((R x ((i + j) + 1)) + (a + (b + c)))", **M)
+    # an inlined `let` is not used after a name it mentions was bound again; a `let` that reads a `let mut` variable is kept
+    refuse("q_stale", "was bound again", **M)
+    check("q_mutdep", "let p : Nat := 0 let k : Nat := (p + 1) let p : Nat := (p + 2) (R x (k + p))", **M)
+    check("q_push", "let v : List α := List.foldl (fun (v : List α) (i : Nat) => let v : List α := (v ++ [(a + ((i : Nat) : α))]) v) "
+          "([] : List α) (List.range n) v", normalize=False, **M)
     # struct literals (fields in declaration order, nested constructor bound first); a sub-sampler draw as a parameter
     check("Ex::new", "if lambda ≤ 0 then none else (UN 0 1).bind fun (r1 : U') => some (MK lambda r1)", mut=True,
           adts={"Ex": "E'", "Un": "U'"}, struct_types={"Ex": [("lambda", "f64"), ("rng", ("adt", "Un", "U'"))]},
